@@ -190,6 +190,9 @@ theorem table_values :
       [1, 3, 5, 15, 30, 45, 60, 120, 180, 240, 360, 480, 720, 1440, 4320, 10080, 43200] := by
   decide +kernel
 
+/-- The simulator's own copy of the table (jesse/modes/backtest_mode.py) agrees with it entry by entry. -/
+theorem tables_agree : btTfMinutesTable = tfMinutesTable := by decide +kernel
+
 /-- The anchor timeframe is strictly longer than, and a whole multiple of, the timeframe. -/
 theorem anchor_is_longer_multiple :
     ∀ e ∈ anchorTable, minutes e.1 < minutes e.2 ∧ minutes e.2 % minutes e.1 = 0 := by
